@@ -79,11 +79,16 @@ def mk_profile(ballots, candidates=None):
     return PreferenceProfile(ballots=bs, candidates=tuple(candidates))
 
 
+def skey(c):
+    """Sort key for candidate names: by string value (np.str_ == str), None last."""
+    return (1, "") if c is None else (0, str(c))
+
+
 def ranking_key(ranking):
     """Canonical hashable/sortable form of a votekit ranking (tuple of frozensets)."""
     if not ranking:
         return ()
-    return tuple(tuple(sorted(s, key=repr)) for s in ranking)
+    return tuple(tuple(sorted((None if c is None else str(c) for c in s), key=skey)) for s in ranking)
 
 
 def scores_key(scores):
@@ -102,7 +107,7 @@ def case_hash(case) -> str:
 
 def groups(t):
     """tuple of frozensets -> list of sorted lists, dropping empty groups (JSON-able)."""
-    return [sorted(s, key=repr) for s in t if len(s) > 0]
+    return [sorted(s, key=skey) for s in t if len(s) > 0]
 
 
 def flat(t):
